@@ -6,8 +6,9 @@ between them) implies `NoFuse`.
 namespace ExprModel.Parser
 open ExprModel.Lex
 
-theorem prefix_split {cc : CharClass} (hsp : cc.isSpace ' ' = true) (hi : cc.isSpace 'i' = false) :
-    ∀ (mid g : List Char) (X Y : List Char) (c : Char), (∀ x ∈ mid, x = ' ') → (∀ x ∈ g, cc.isSpace x = true) →
+theorem prefix_split {cc : CharClass} (hi : cc.isSpace 'i' = false) :
+    ∀ (mid g : List Char) (X Y : List Char) (c : Char), (∀ x ∈ mid, cc.isSpace x = true) →
+      (∀ x ∈ g, cc.isSpace x = true) →
       cc.isSpace c = false → mid ++ 'i' :: X = g ++ c :: Y → c = 'i' ∧ X = Y
   | [], [], X, Y, c, _, _, _, h => by
     simp only [List.nil_append, List.cons.injEq] at h
@@ -19,10 +20,10 @@ theorem prefix_split {cc : CharClass} (hsp : cc.isSpace ' ' = true) (hi : cc.isS
   | m :: mid', [], X, Y, c, hm, _, hc, h => by
     simp only [List.cons_append, List.nil_append, List.cons.injEq] at h
     have := hm m (by simp)
-    rw [← h.1, this, hsp] at hc; cases hc
+    rw [h.1, hc] at this; cases this
   | m :: mid', a :: g', X, Y, c, hm, hg, hc, h => by
     simp only [List.cons_append, List.cons.injEq] at h
-    exact prefix_split hsp hi mid' g' X Y c (fun x hx => hm x (by simp [hx])) (fun x hx => hg x (by simp [hx])) hc h.2
+    exact prefix_split hi mid' g' X Y c (fun x hx => hm x (by simp [hx])) (fun x hx => hg x (by simp [hx])) hc h.2
 
 theorem ascii_space_facts {cc : CharClass} (hcc : cc.AsciiExact) :
     cc.isSpace ' ' = true ∧ cc.isSpace 'i' = false ∧ cc.isAlphaNumeric ' ' = false ∧ cc.isAlphaNumeric 'n' = true := by
@@ -30,6 +31,32 @@ theorem ascii_space_facts {cc : CharClass} (hcc : cc.AsciiExact) :
     alnum_letter hcc (by decide)⟩
   unfold CharClass.isAlphaNumeric CharClass.isAlphabetic
   rw [hcc.letter _ (by decide), hcc.digit _ (by decide)]; decide
+
+theorem wordBlank_isSpace {cc : CharClass} (hcc : cc.AsciiExact) {c : Char} (h : cc.wordBlank c = true) :
+    cc.isSpace c = true := by
+  unfold CharClass.wordBlank at h
+  split at h
+  · exact h
+  · have : c = ' ' := by simpa using h
+    subst this
+    exact (ascii_space_facts hcc).1
+
+theorem wordEnd_not_alnum {cc : CharClass} (hcc : cc.AsciiExact) {c : Char} (h : cc.wordEnd c = true) :
+    cc.isAlphaNumeric c = false := by
+  unfold CharClass.wordEnd at h
+  split at h
+  · simpa using h
+  · have : c = ' ' := by simpa using h
+    subst this
+    exact (ascii_space_facts hcc).2.2.1
+
+/-- a white space rune that is no word rune may follow the word of `acceptWord`, whichever shape it has -/
+theorem wordEnd_of_space {cc : CharClass} (hsw : SpaceNotWord cc) {c : Char} (h : cc.isSpace c = true)
+    (h2 : cc.notInAnySpace = false → c = ' ') : cc.wordEnd c = true := by
+  unfold CharClass.wordEnd
+  split
+  · simp [hsw c h]
+  · next hf => simp [h2 (by simpa using hf)]
 
 /-- `not` followed by a gap and a token that is not `in` does not fuse -/
 theorem notFollow_of {cc : CharClass} (hcc : cc.AsciiExact) (g : List Char) (hg : ∀ x ∈ g, cc.isSpace x = true)
@@ -43,7 +70,7 @@ theorem notFollow_of {cc : CharClass} (hcc : cc.AsciiExact) (g : List Char) (hg 
   have hin : "in".toList = ['i', 'n'] := by decide
   rw [hraw, hin] at he
   simp only [List.cons_append, List.append_assoc, List.nil_append] at he
-  obtain ⟨hci, hrest⟩ := prefix_split hsp hi mid g ('n' :: r') (cs ++ R') c hm hg hc he.symm
+  obtain ⟨hci, hrest⟩ := prefix_split hi mid g ('n' :: r') (cs ++ R') c (fun x hx => wordBlank_isSpace hcc (hm x hx)) hg hc he.symm
   subst hci
   obtain ⟨hcs, hok⟩ := raw_word_of_i hcc u hpu cs hraw
   rw [hok] at hu
@@ -62,11 +89,8 @@ theorem notFollow_of {cc : CharClass} (hcc : cc.AsciiExact) (g : List Char) (hg 
     | cons c3 _ =>
       have h3 : cc.isAlphaNumeric c3 = true := hcs c3 (by simp)
       rw [hr] at hr'
-      simp only [List.cons_append, List.head?_cons] at hr'
-      rcases hr' with h | h
-      · cases h
-      · have : c3 = ' ' := Option.some.inj h
-        rw [this, hsa] at h3; cases h3
+      have := wordEnd_not_alnum hcc (hr' c3 rfl)
+      rw [this] at h3; cases h3
 
 theorem notFollow_spaces {cc : CharClass} (hcc : cc.AsciiExact) (hsw : SpaceNotWord cc) (trail : List Char)
     (ht : ∀ x ∈ trail, cc.isSpace x = true) : NotFollow cc trail := by
@@ -80,25 +104,26 @@ theorem notFollow_spaces {cc : CharClass} (hcc : cc.AsciiExact) (hsw : SpaceNotW
 
 /-- the condition on a token, the gap after it and the next token -/
 def PairOK (cc : CharClass) (t : Token) (g2 : List Char) (u : Token) : Prop :=
-  (isNotIn t → g2.head? = some ' ') ∧
+  (isNotIn t → WordEnd cc (g2 ++ tokRaw u)) ∧
   (isNot t → tokRaw u ≠ "in".toList ∧
     (g2 = [] → ∀ x, (tokRaw u).head? = some x → cc.isAlphaNumeric x = false)) ∧
   (¬ isNot t → ¬ isNotIn t → g2 = [] → tokOk cc t (tokRaw u))
 
 /-- **the syntactic layout rule**: gaps are white space; where a gap is empty the two neighbouring spellings
     must not fuse (`tokOk` of the first on the spelling of the second: a condition on two spellings, as the
-    harness's `needSpace`); `not in` is followed by U+0020 (or ends the text); `not` is not followed by `in` -/
+    harness's `needSpace`); `not in` is followed by a rune of `cc.wordEnd` (U+0020 before the fix of `acceptWord`,
+    any rune that is no word rune after it) or ends the text; `not` is not followed by `in` -/
 def SepOK (cc : CharClass) : List Token → List (List Char) → List Char → Prop
   | t :: ts, g :: gs, trail =>
     (∀ c ∈ g, cc.isSpace c = true) ∧
     (match ts, gs with
      | u :: _, g2 :: _ => PairOK cc t g2 u
-     | _, _ => isNotIn t → trail = [] ∨ trail.head? = some ' ') ∧
+     | _, _ => isNotIn t → WordEnd cc trail) ∧
     SepOK cc ts gs trail
   | _, _, trail => ∀ c ∈ trail, cc.isSpace c = true
 
 theorem tokOk_notin {cc : CharClass} (t : Token) (h : isNotIn t) (R : List Char)
-    (hR : R.head? = none ∨ R.head? = some ' ') : tokOk cc t R := by
+    (hR : WordEnd cc R) : tokOk cc t R := by
   obtain ⟨k, v, l⟩ := t
   obtain ⟨hk, hv⟩ := h
   simp only at hk hv
@@ -130,10 +155,7 @@ theorem noFuse_of_sepOK {cc : CharClass} (hcc : cc.AsciiExact) (hsw : SpaceNotWo
     by_cases hn : isNot t
     · exact tokOk_not t hn _ (notFollow_spaces hcc hsw trail htrail')
     · by_cases hni : isNotIn t
-      · refine tokOk_notin t hni _ ?_
-        rcases hlast hni with h | h
-        · subst h; exact Or.inl rfl
-        · exact Or.inr h
+      · exact tokOk_notin t hni _ (hlast hni)
       · exact tokOk_of_space hcc hsw t (by rintro ⟨hk, h | h⟩; exact hn ⟨hk, h⟩; exact hni ⟨hk, h⟩) trail
           (fun x hx => htrail' x (List.mem_of_mem_head? hx))
   | t :: u :: ts', g :: g2 :: gs', trail, hl, hp, h => by
@@ -163,11 +185,11 @@ theorem noFuse_of_sepOK {cc : CharClass} (hcc : cc.AsciiExact) (hsw : SpaceNotWo
         simpa using hx
       · exact hsw x (hheadR x hx hg2e)
     · by_cases hni : isNotIn t
-      · refine tokOk_notin t hni _ (Or.inr ?_)
-        have := hpair'.1 hni
+      · refine tokOk_notin t hni _ fun x hx => hpair'.1 hni x ?_
+        rw [hraw] at hx ⊢
         cases g2 with
-        | nil => simp at this
-        | cons a g2' => simpa using this
+        | nil => simpa using hx
+        | cons a g2' => simpa using hx
       · by_cases hg2e : g2 = []
         · subst hg2e
           refine tokOk_congr_head t hn ?_ (hpair'.2.2 hn hni rfl)
